@@ -11,6 +11,9 @@ Q3 == {<<>>} \cup {<<a>> : a \in Nibs} \cup {<<a, b>> : a \in Nibs, b \in Nibs}
          \cup {<<a, b, c>> : a \in Nibs, b \in Nibs, c \in Nibs}
          \cup {<<0,0,0,0>>, <<0,1,15,15>>, <<1,2,0,0>>, <<15,15,15,15>>, <<7>>, <<0,7>>, <<1,2,7>>}
 Bounded(n) == Init /\ [][TLCGet("level") < n /\ Next]_vars
+BoundedR(n) == Init /\ [][TLCGet("level") < n /\ (Next \/ NextR)]_vars
+SpecRL3 == BoundedR(3)
+SpecRL4 == BoundedR(4)
 SpecL3 == Bounded(3)
 SpecL4 == Bounded(4)
 SpecL5 == Bounded(5)
